@@ -5,6 +5,7 @@
 import Gts.Model.Sexp
 import Gts.Spec.Den
 import Gts.Spec.Guard
+import Gts.Spec.LocCanon
 namespace Gts
 
 def hasEmptyParts : Loc → Bool
@@ -42,7 +43,8 @@ def evalCore (op : String) (args : List Sexp) : Option String :=
   | "loc.strand", [l] => do pure (toString (← decLoc? l).strand)
   | "loc.complement", [l] => do pure (encLoc (← decLoc? l).complement)
   | "loc.ascomplete", [l] => do pure (encLoc (← decLoc? l).asComplete)
-  | "loc.print", [l] => do pure (encStr (← decLoc? l).print)
+  | "loc.print", [l] => do pure (encBytes (← decLoc? l).printB)
+  | "loc.canonp", [l] => do pure (boolStr (← decLoc? l).canonP)
   | "loc.parse", [s] => do
       match parseLocation (← decBytes? s) with
       | .ok (l, rest) => pure (encLoc l ++ " " ++ encBytes rest)
